@@ -282,6 +282,24 @@ func (fr *Frame) callWithArgs(s *State, g *Term, call *ssa.CallCommon, ins ssa.I
 			}
 		}
 	}
+	// a function value loaded from a struct field (m.verifier(...)): a callback contract named after the field
+	if ld, ok := call.Value.(*ssa.UnOp); ok && ld.Op == token.MUL {
+		if fa, ok := ld.X.(*ssa.FieldAddr); ok {
+			if st, ok := types.Unalias(fa.X.Type().Underlying().(*types.Pointer).Elem()).Underlying().(*types.Struct); ok {
+				name := st.Field(fa.Field).Name()
+				for f := fr; f != nil; f = f.parent {
+					if f.contract != nil {
+						if cb := f.contract.Callbacks[name]; cb != nil {
+							return fr.applyCallback(f, s, g, cb, sig, args, pos)
+						}
+					}
+					if f.top {
+						break
+					}
+				}
+			}
+		}
+	}
 	if ci := x.closures[fnv]; ci != nil && ci.fn.Blocks != nil {
 		return fr.inlineCall(s, g, ci.fn, args, ci.bindings, fr.spec)
 	}
@@ -621,7 +639,11 @@ func (fr *Frame) applyCallback(owner *Frame, s *State, g *Term, cb *CallbackCont
 	}
 	// the callback is arbitrary code: it may change the heap (not ghosts)
 	ghosts := s.ghost
-	fr.havocAll(s, g, "callback "+cb.Name+" is arbitrary caller code")
+	if cb.Pure {
+		x.note("callback " + cb.Name + " assumed not to write anything the function under contract can observe (callback ... pure)")
+	} else {
+		fr.havocAll(s, g, "callback "+cb.Name+" is arbitrary caller code")
+	}
 	s.ghost = ghosts
 	for k, v := range newGhost {
 		s.ghost[k] = v
